@@ -119,6 +119,56 @@ theorem C07_closed {D Q} (eng : D → Q → Except DuckExc D) (w : World D) (s :
     (execute eng w s).sqlstate = none := by
   simp [execute, h, c250002, sqlstateOf]
 
+/-- **`description` on a closed connection / after the object vanished**: `description` re-describes through the same
+    translating ladder as `execute`: on a closed connection it raises DatabaseError 250002/08003, and for every engine
+    whose DESCRIBE fails only with Binder/Catalog errors (table or column dropped through another cursor since) it
+    raises ProgrammingError 2043/02000 or 2003/42S02 — never an engine-specific exception (given the session still has the
+    database/schema the last statement needed). -/
+theorem C07_description_translated {D Q} (eng : D → Q → Except DuckExc D) (w : World D) (c : Call Q) (hf : c.followups = [])
+    (hdb : ¬ (c.noDatabase = true ∧ ¬ w.sess.databaseSet = true)) (hsc : ¬ (c.noSchema = true ∧ ¬ w.sess.schemaSet = true))
+    (heng : ∀ d q e, eng d q = .error e → e = .binder ∨ e = .catalog) :
+    (w.closed = true → descriptionOutcome eng w c = .database ⟨250002, "08003"⟩) ∧
+    (w.closed = false → descriptionOutcome eng w c = .ok ∨ descriptionOutcome eng w c = .programming c2043 ∨
+        descriptionOutcome eng w c = .programming c2003) := by
+  constructor
+  · intro hcl
+    unfold descriptionOutcome execCall
+    rw [if_neg hdb, if_neg hsc]
+    simp [hcl, mapExc, c250002]
+  · intro hcl
+    simp only [descriptionOutcome, hcl, Bool.false_eq_true, if_false]
+    rcases execCall_outcome eng w c hf with h | h | h | ⟨e, he, hm⟩
+    · exact .inl h
+    · exfalso; revert h; unfold execCall; rw [if_neg hdb, if_neg hsc]
+      cases he : eng w.duck c.sql with
+      | error e => rcases heng _ _ _ he with rfl | rfl <;> simp [mapExc, c2043, c2003, c90105]
+      | ok d => simp [hf, runFollowups]
+    · exfalso; revert h; unfold execCall; rw [if_neg hdb, if_neg hsc]
+      cases he : eng w.duck c.sql with
+      | error e => rcases heng _ _ _ he with rfl | rfl <;> simp [mapExc, c2043, c2003, c90106]
+      | ok d => simp [hf, runFollowups]
+    · rcases heng _ _ _ he with rfl | rfl
+      · simp only [mapExc, Option.some.injEq] at hm; exact .inr (.inl hm.symm)
+      · simp only [mapExc, Option.some.injEq] at hm; exact .inr (.inr hm.symm)
+
+/-- **A qualified `USE SCHEMA db.s` gives the session a current database *and* schema** — from any earlier state, in
+    particular from "no current database": afterwards neither pre-check can fire, so every statement reaches the engine
+    and its failures carry the engine's code (2003 / 2043), not 90105 / 90106. -/
+theorem C07_use_schema_qualified {D Q} (eng : D → Q → Except DuckExc D) (w : World D) (sess : Session) (db sc : String) (c : Call Q) :
+    let sess' := (CtxUpdate.setSchema sc (some db)).apply sess
+    sess'.databaseSet = true ∧ sess'.schemaSet = true ∧ sess'.database = some db ∧ sess'.schema = some sc ∧
+    (execCall eng { w with sess := sess' } c).2 ≠ .programming c90105 ∧
+    (execCall eng { w with sess := sess' } c).2 ≠ .programming c90106 := by
+  refine ⟨rfl, rfl, rfl, rfl, ?_, ?_⟩ <;>
+  · simp only [execCall, CtxUpdate.apply]
+    simp only [not_true_eq_false, and_false, if_false]
+    cases he : eng w.duck c.sql with
+    | error e => cases e <;> simp [mapExc, c2043, c2003, c90105, c90106, c250002]
+    | ok d =>
+      simp only []
+      cases hr : runFollowups eng d c.followups with
+      | mk d' oe => cases oe <;> simp
+
 /-! ### the cause × position table -/
 
 /-- the full statement over the scenario table: every way of referring to something missing or duplicate, at
@@ -199,6 +249,6 @@ theorem C07_old_closed_client_side_first :
 
 example : InEnv ⟨.unknownTable, .query, .table, .schemaName, true, false⟩ := by decide
 example : predict ⟨.unknownColumn, .dmlTarget, .table, .name, true, false⟩ = (.programming c90106, false) := by decide
-example : SingleCall ({ calls := [⟨true, true, 7, .setSchema "S", []⟩] } : Stmt Nat) := ⟨rfl, _, rfl, rfl⟩
+example : SingleCall ({ calls := [⟨true, true, 7, .setSchema "S" none, []⟩] } : Stmt Nat) := ⟨rfl, _, rfl, rfl⟩
 
 end Fs.C07
